@@ -274,3 +274,34 @@ pub fn crash_point(name: &str) -> std::io::Result<()> {
         std::process::abort()
     }
 }
+
+/// Comment / code segmentation and the comment safety net (comment.rs).
+pub mod comments {
+    pub fn ungrouped_slices(s: &str) -> Vec<(u8, usize, String)> {
+        crate::comment::verif::ungrouped(s)
+    }
+    pub fn slices(s: &str) -> Vec<(u8, usize, String)> {
+        crate::comment::verif::slices(s)
+    }
+    pub fn changed_comment_content(orig: &str, new: &str) -> bool {
+        crate::comment::verif::changed(orig, new)
+    }
+    pub fn payload(code: &str) -> String {
+        crate::comment::verif::payload(code)
+    }
+    pub fn filter_normal_code(code: &str) -> String {
+        crate::comment::filter_normal_code(code)
+    }
+    /// `rewrite_comment` with a shape of the given width at the given block indent.
+    pub fn rewrite_comment(
+        orig: &str,
+        block_style: bool,
+        width: usize,
+        indent: usize,
+        config: &crate::Config,
+    ) -> Option<String> {
+        use crate::shape::{Indent, Shape};
+        let shape = Shape::legacy(width, Indent::new(indent, 0));
+        crate::comment::rewrite_comment(orig, block_style, shape, config).ok()
+    }
+}
